@@ -107,6 +107,19 @@ impl HintInstance {
         self.graphics.target.is_grayscale_cleartype()
     }
 
+    /// Returns true if the buffers of this instance have the sizes that the
+    /// given outline (and therefore the font it was loaded from) expects.
+    ///
+    /// This is false when the instance was configured for a different font
+    /// with different `maxp` limits or `cvt` length.
+    pub fn is_compatible(&self, outline: &super::super::Outline) -> bool {
+        self.cvt.len() == outline.cvt_count
+            && self.storage.len() == outline.storage_count
+            && self.twilight_scaled.len() == outline.max_twilight_points
+            && self.twilight_original_scaled.len() == outline.max_twilight_points
+            && self.twilight_flags.len() == outline.max_twilight_points
+    }
+
     pub fn hint(
         &self,
         outlines: &Outlines,
